@@ -1013,7 +1013,7 @@ def wl_synthetic2(kind: str) -> Workflow:
         # two parallel before-stages that both succeed (two ContinueParentStage messages), parent with two tasks
         p = stage("p", tasks={"t1": dict(OK), "t2": dict(OK)})
         x = stage("x", synthetic_stage_owner=SyntheticStageOwner.STAGE_BEFORE)
-        y = stage("y", tasks={"t1": dict(OK), "t2": dict(OK)}, synthetic_stage_owner=SyntheticStageOwner.STAGE_BEFORE)
+        y = stage("y", synthetic_stage_owner=SyntheticStageOwner.STAGE_BEFORE)
     elif kind in ("before2_latefail_cont", "before2_latefail_stop"):
         # x succeeds first (its ContinueParentStage waits for y), y fails later; p carries a failure policy
         p = stage("p", ctx={"continuePipelineOnFailure": True} if kind.endswith("_cont") else {"failPipeline": False})
